@@ -537,14 +537,14 @@ func C07(c *core.Ctx) {
 func c07Hooks(c *core.Ctx) {
 	var cases []*b1.Case
 	for i, h := range hookEnumerate(c) {
-		if h.Cfg.Kind == "twoResults" || ((h.Cfg.Kind == "ok" || h.Cfg.Kind == "imported" || h.Cfg.Kind == "funcVar") && h.Cfg.HErr) {
+		if h.Cfg.Kind == "twoResults" || h.Cfg.Kind == "errImplResult" || ((h.Cfg.Kind == "ok" || h.Cfg.Kind == "imported" || h.Cfg.Kind == "importedBlank" || h.Cfg.Kind == "funcVar") && h.Cfg.HErr) {
 			cases = append(cases, hookConcretise(i, h))
 		}
 	}
 	if len(cases) < 50 {
 		core.Machinery("C07: only %d error-capable hook shapes", len(cases))
 	}
-	st := b1.Run(c, b1.Options{Name: "hooks07", PerFile: 40, Family: "hooks"}, cases, func(r *b1.Result) b1.Verdict {
+	st := b1.Run(c, hookOptions("hooks07", false), cases, func(r *b1.Result) b1.Verdict {
 		h := r.Case.Data.(*hookCase)
 		v := b1.Verdict{Nontrivial: "hook|" + fmt.Sprint(h.Cfg)}
 		switch {
